@@ -2,7 +2,7 @@
 import ast
 import itertools
 
-from .. import coqrun, py2gallina as pg
+from .. import coqrun, py2gallina as pg, symex as X
 from ..core import Corr, Untranslatable, Violation
 
 ID = "C01"
@@ -19,112 +19,170 @@ ASSUMPTIONS = ["exact arithmetic for the DFT identities (rounding error of float
 RULE = "roll / fftshift / ifftshift on iota tensors (rank 1-5, axis lengths 1-7, all axis subsets incl. dim=None, negative and oversized shifts) compared exactly; centred DFT on Gaussian-integer input for axis lengths 1, 2, 4 compared exactly; non-trivial = some transformed axis longer than 1; distinct by (function, shape, arguments)"
 
 
+def _sym(n):
+    return ("sym", n)
+
+
+def _call_parts(v, path, what):
+    """(function value, positional args, keyword dict) of a call value."""
+    if v[0] != "call":
+        raise Untranslatable("%s: expected a call, found %s" % (what, X.show(v)[:80]), None, path)
+    return v[1], list(v[2]), dict(v[3])
+
+
+def _emit_tree(t, leaf, em, path, what):
+    """Gallina `if` tree over the path conditions of an outcome tree (raises must have been pruned)."""
+    if t[0] == "if":
+        return "(if %s then %s else %s)" % (em.b(t[1]), _emit_tree(t[2], leaf, em, path, what), _emit_tree(t[3], leaf, em, path, what))
+    if t[0] == "ret":
+        return leaf(t[1])
+    raise Untranslatable("%s: outcome outside subset: %s" % (what, t[0]), None, path)
+
+
 def generate(ctx):
+    """Every function is executed symbolically (vlib/symex.py): what is translated is the value each function returns in
+    terms of its parameters, so local names, named intermediates, guard clauses versus else-branches, comprehensions
+    versus loops and private helpers do not matter; the arithmetic is emitted as it stands and left to `lia`."""
     path = ctx.src("direct/data/transforms.py")
     tree, _ = pg.parse_file(path)
     out = ""
-    # ---------------- roll_one_dim ----------------
-    fn = pg.find_def(tree, "roll_one_dim", path)
-    body = pg.strip_doc(fn.body)
-    tr = pg.ExprT({"shift": "s", "data.size(dim)": "n"}, path, truthy_int=False)
-    if not (isinstance(body[0], ast.Assign) and ast.unparse(body[0].targets[0]) == "shift"):
-        raise Untranslatable("roll_one_dim: expected `shift = shift % data.size(dim)` first", fn.lineno, path)
-    out += "Definition r_shift (s n : Z) : Z := %s.\n" % tr.z(body[0].value)
-    tr.env["shift"] = "sh"
-    if not (isinstance(body[1], ast.If) and ast.unparse(body[1].body[0]) == "return data" and not body[1].orelse):
-        raise Untranslatable("roll_one_dim: expected `if <noop>: return data`", body[1].lineno, path)
-    out += "Definition r_noop (sh n : Z) : bool := %s.\n" % tr.b(body[1].test)
-    segs = {}
-    for s in body[2:-1]:
-        if not (isinstance(s, ast.Assign) and isinstance(s.value, ast.Call) and ast.unparse(s.value.func) == "data.narrow" and len(s.value.args) == 3 and ast.unparse(s.value.args[0]) == "dim"):
-            raise Untranslatable("roll_one_dim: expected narrow() assignments", s.lineno, path)
-        segs[s.targets[0].id] = (tr.z(s.value.args[1]), tr.z(s.value.args[2]))
-    ret = body[-1]
-    if not (isinstance(ret, ast.Return) and isinstance(ret.value, ast.Call) and ast.unparse(ret.value.func) == "torch.cat" and isinstance(ret.value.args[0], ast.Tuple) and [ast.unparse(k.value) for k in ret.value.keywords] == ["dim"]):
-        raise Untranslatable("roll_one_dim: expected return torch.cat((..), dim=dim)", ret.lineno, path)
-    order = [e.id for e in ret.value.args[0].elts]
-    if any(o not in segs for o in order):
-        raise Untranslatable("roll_one_dim: cat of unknown pieces", ret.lineno, path)
-    out += "Definition r_segments (sh n : Z) : list (Z * Z) := [%s].\n" % "; ".join("(%s, %s)" % segs[o] for o in order)
-    # roll: pairs of zip(shift, dim), applied in order
-    fn = pg.find_def(tree, "roll", path)
-    body = pg.strip_doc(fn.body)
-    srcs = [ast.unparse(s) for s in body]
-    if srcs[1:] != ["for s, d in zip(shift, dim):\n    data = roll_one_dim(data, s, d)", "return data"] or not srcs[0].startswith("if len(shift) != len(dim):"):
-        raise Untranslatable("roll: body outside subset", fn.lineno, path)
-    # ---------------- fftshift / ifftshift amounts ----------------
+    data, dim = _sym("data"), _sym("dim")
+    # ---------------- roll_one_dim: the input itself (no-op) or a cat of narrows of the input along dim ----------------
+    t, _n = X.run_function(tree, path, "roll_one_dim")
+    t = X.prune_raises(X.drop_do(t))
+    if t is None:
+        raise Untranslatable("roll_one_dim: always raises", None, path)
+    sizes = {("call", ("attr", data, "size"), (dim,), ()), ("sub", ("attr", data, "shape"), dim)}
+
+    def leaf_rd(v):
+        if v == _sym("shift"):
+            return "s"
+        if v in sizes:
+            return "n"
+        return None
+
+    em = X.Emit(leaf_rd, path)
+
+    def segs(v):
+        if v == data:
+            return "[]"
+        f, args, kw = _call_parts(v, path, "roll_one_dim result")
+        if f != ("attr", _sym("torch"), "cat") or not args or args[0][0] not in ("tuple", "list") or (args[1:] + [kw.get("dim")])[0] != dim:
+            raise Untranslatable("roll_one_dim: result is neither the input nor torch.cat(pieces, dim): %s" % X.show(v)[:100], None, path)
+        pieces = []
+        for pc in args[0][1]:
+            f2, a2, k2 = _call_parts(pc, path, "roll_one_dim piece")
+            if f2 == ("attr", data, "narrow") and len(a2) == 3 and a2[0] == dim and not k2:
+                pieces.append("(%s, %s)" % (em.z(a2[1]), em.z(a2[2])))
+            elif f2 == ("attr", _sym("torch"), "narrow") and len(a2) == 4 and a2[0] == data and a2[1] == dim and not k2:
+                pieces.append("(%s, %s)" % (em.z(a2[2]), em.z(a2[3])))
+            else:
+                raise Untranslatable("roll_one_dim: piece is not a narrow of the input along dim: %s" % X.show(pc)[:100], None, path)
+        return "[" + "; ".join(pieces) + "]"
+
+    out += "Definition r_noop (s n : Z) : bool := %s.\n" % _emit_tree(t, lambda v: "true" if v == data else "false", em, path, "roll_one_dim")
+    out += "Definition r_segments (s n : Z) : list (Z * Z) := %s.\n" % _emit_tree(t, segs, em, path, "roll_one_dim")
+    # ---------------- roll: roll_one_dim folded over zip(shift, dim), in order ----------------
+    t, _n = X.run_function(tree, path, "roll", opaque={"roll_one_dim"})
+    t = X.prune_raises(X.drop_do(t))
+    want = ("ret", ("fold", 0, (("call", _sym("roll_one_dim"), (("ba", 1, 0), ("sub", ("bv", 1), X.const(0)), ("sub", ("bv", 1), X.const(1))), ()),), (data,), ("call", _sym("zip"), (_sym("shift"), dim), ())))
+    if t != want:
+        raise Untranslatable("roll: not roll_one_dim folded over zip(shift, dim): %s" % (X.show(t[1]) if t and t[0] == "ret" else t,), None, path)
+    # ---------------- fftshift / ifftshift: roll by f(size) along each axis; all axes when dim is None ----------------
     for name in ("fftshift", "ifftshift"):
-        fn = pg.find_def(tree, name, path)
-        body = pg.strip_doc(fn.body)
-        if len(body) != 4 or not ast.unparse(body[0]).startswith("if dim is None:") or not ast.unparse(body[1]).startswith("shift = [0] * len(dim)") or ast.unparse(body[3]) != "return roll(data, shift, dim)":
-            raise Untranslatable("%s: body outside subset" % name, fn.lineno, path)
-        dflt = body[0]
-        ok_default = [ast.unparse(x) for x in dflt.body][0] == "dim = [0] * data.dim()" and isinstance(dflt.body[1], ast.For) and ast.unparse(dflt.body[1].iter) == "range(1, data.dim())" and len(dflt.body[1].body) == 1
-        if ok_default:
-            a = dflt.body[1].body[0]
-            v = dflt.body[1].target.id
-            ok_default = ast.unparse(a) == "dim[%s] = %s" % (v, v)
-        if not ok_default:
-            raise Untranslatable("%s: default axes outside subset" % name, dflt.lineno, path)
-        loop = body[2]
-        if not (isinstance(loop, ast.For) and ast.unparse(loop.iter) == "enumerate(dim)" and len(loop.body) == 1 and isinstance(loop.body[0], ast.Assign)):
-            raise Untranslatable("%s: shift loop outside subset" % name, loop.lineno, path)
-        i_name, d_name = [e.id for e in loop.target.elts]
-        a = loop.body[0]
-        if ast.unparse(a.targets[0]) != "shift[%s]" % i_name:
-            raise Untranslatable("%s: shift assignment outside subset" % name, a.lineno, path)
-        tr2 = pg.ExprT({"data.shape[%s]" % d_name: "n"}, path, truthy_int=False)
-        out += "Definition %s_amount (n : Z) : Z := %s.\n" % (name, tr2.z(a.value))
-    # ---------------- fft2 / ifft2 skeleton ----------------
+        t, _n = X.run_function(tree, path, name, opaque={"roll"})
+        t = X.prune_raises(X.drop_do(t))
+        amounts, defaults = set(), set()
+        for conds, lf in X.leaves(t):
+            f, args, kw = _call_parts(lf[1], path, name)
+            if f != _sym("roll") or (args[:1] + [kw.get("data")])[0] != data:
+                raise Untranslatable("%s: result is not roll(data, ..)" % name, None, path)
+            shift_v = args[1] if len(args) > 1 else kw.get("shift")
+            dims_v = args[2] if len(args) > 2 else kw.get("dim")
+            is_none = [pol if c == ("cmp", "is", dim, X.NONE) else (not pol) if c == ("cmp", "isnot", dim, X.NONE) else None for c, pol in conds]
+            if len(is_none) != 1 or is_none[0] is None:
+                raise Untranslatable("%s: branches other than `dim is None`" % name, None, path)
+            if is_none[0]:
+                rng = ("call", _sym("range"), (("call", ("attr", data, "dim"), (), ()),), ())
+                rng2 = ("call", _sym("range"), (("call", _sym("len"), (("attr", data, "shape"),), ()),), ())
+                if not (dims_v and dims_v[0] == "map" and dims_v[2] in (rng, rng2)):
+                    raise Untranslatable("%s: default axes are not a list over range(data.dim()): %s" % (name, X.show(dims_v)[:100]), None, path)
+                d = _bound_depth(dims_v[1])
+                defaults.add(X.Emit(lambda v: "i" if v == ("bv", d) else None, path).z(dims_v[1]))
+            elif dims_v != dim:
+                raise Untranslatable("%s: the axes passed on are not `dim`" % name, None, path)
+            if not (shift_v and shift_v[0] == "map" and shift_v[2] == dims_v):
+                raise Untranslatable("%s: shifts are not computed per axis of the axes rolled: %s" % (name, X.show(shift_v)[:100]), None, path)
+            d = _bound_depth(shift_v[1])
+            sz = {("sub", ("attr", data, "shape"), ("bv", d)), ("call", ("attr", data, "size"), (("bv", d),), ())}
+            amounts.add(X.Emit(lambda v: "n" if v in sz else None, path).z(shift_v[1]))
+        if len(amounts) != 1 or len(defaults) != 1:
+            raise Untranslatable("%s: the shift amount / default axes differ between branches" % name, None, path)
+        out += "Definition %s_amount (n : Z) : Z := %s.\n" % (name, amounts.pop())
+        out += "Definition %s_default_axis (i : Z) : Z := %s.\n" % (name, defaults.pop())
+    # ---------------- fft2 / ifft2: per (centered, complex_input) the sequence of operations applied to the input ----------------
     out += "From DV Require Import Model.C01_ops.\n"
-    for name, call, kind in (("fft2", "torch.fft.fftn", "Fwd"), ("ifft2", "torch.fft.ifftn", "Bwd")):
-        fn = pg.find_def(tree, name, path)
-        out += "Definition %s_ops : list fop := [%s].\n" % (name, "; ".join(_fft_ops(pg.strip_doc(fn.body), call, kind, path)))
+    prim = {"fftshift", "ifftshift", "verify_fft_dtype_possible", "assert_complex", "view_as_complex", "view_as_real"}
+    for name in ("fft2", "ifft2"):
+        t, _n = X.run_function(tree, path, name, opaque=prim)
+        t = X.prune_raises(X.drop_do(t))
+        rows = {}
+        for c in (True, False):
+            for ci in (True, False):
+                rows[(c, ci)] = "[%s]" % "; ".join(_fft_ops(_select(t, {"centered": c, "complex_input": ci}, name, path), name, path))
+        out += "Definition %s_tab (c ci : bool) : list fop := if c then (if ci then %s else %s) else (if ci then %s else %s).\n" % (name, rows[(True, True)], rows[(True, False)], rows[(False, True)], rows[(False, False)])
     return [pg.write_gen(ctx, "C01_gen", out)]
 
 
-def _fft_ops(body, call, kind, path):
+def _bound_depth(v):
+    """Depth of the (single) bound element a map body refers to."""
+    found = set()
+
+    def walk(x):
+        if isinstance(x, tuple):
+            if len(x) == 2 and x[0] in ("bv", "bi"):
+                found.add(x[1])
+            for y in x:
+                walk(y)
+
+    walk(v)
+    return min(found) if found else 1
+
+
+def _select(t, flags, name, path):
+    """The leaf of an outcome tree reached for the given values of the boolean flag parameters."""
+    while t[0] == "if":
+        c, pol = t[1], True
+        if c[0] == "un" and c[1] == "not":
+            c, pol = c[2], False
+        if c[0] != "sym" or c[1] not in flags:
+            raise Untranslatable("%s: branches on something other than centered / complex_input (and argument guards): %s" % (name, X.show(t[1])[:80]), None, path)
+        t = t[2] if flags[c[1]] == pol else t[3]
+    if t[0] != "ret":
+        raise Untranslatable("%s: outcome outside subset" % name, None, path)
+    return t[1]
+
+
+def _fft_ops(v, name, path):
+    """The chain of operations applied to `data`, innermost first."""
     ops = []
-    for s in body:
-        src = ast.unparse(s)
-        if isinstance(s, ast.If):
-            test = ast.unparse(s.test)
-            if test.startswith("not all((_ >= 0 and isinstance(_, int) for _ in dim))") and isinstance(s.body[0], ast.Raise):
-                continue  # argument guard
-            if test == "complex_input" and not s.orelse:
-                inner = []
-                for b in s.body:
-                    bs = ast.unparse(b)
-                    if bs == "assert_complex(data, complex_last=True)":
-                        continue
-                    if bs == "data = view_as_complex(data)":
-                        inner.append("ViewComplex")
-                    elif bs == "data = view_as_real(data)":
-                        inner.append("ViewReal")
-                    else:
-                        raise Untranslatable("fft skeleton: statement under complex_input outside subset: %s" % bs, b.lineno, path)
-                ops.append("IfComplex [%s]" % "; ".join(inner))
-                continue
-            if test == "centered" and not s.orelse and len(s.body) == 1:
-                bs = ast.unparse(s.body[0])
-                if bs == "data = ifftshift(data, dim=dim)":
-                    ops.append("IfCentered [IShift]")
-                elif bs == "data = fftshift(data, dim=dim)":
-                    ops.append("IfCentered [FShift]")
-                else:
-                    raise Untranslatable("fft skeleton: statement under centered outside subset: %s" % bs, s.lineno, path)
-                continue
-            if test == "verify_fft_dtype_possible(data, dim)" and len(s.body) == 1 and len(s.orelse) == 1 and isinstance(s.orelse[0], ast.Raise):
-                bs = ast.unparse(s.body[0])
-                if bs != "data = %s(data, dim=dim, norm='ortho' if normalized else None)" % call:
-                    raise Untranslatable("fft skeleton: transform call outside subset: %s" % bs, s.lineno, path)
-                ops.append(kind)
-                continue
-            raise Untranslatable("fft skeleton: conditional outside subset: %s" % test[:50], s.lineno, path)
-        if src == "return data":
-            continue
-        raise Untranslatable("fft skeleton: statement outside subset: %s" % src[:60], s.lineno, path)
-    return ops
+    dim = _sym("dim")
+    while v != _sym("data"):
+        f, args, kw = _call_parts(v, path, name)
+        if f in (_sym("view_as_real"), _sym("view_as_complex")) and len(args) == 1 and not kw:
+            ops.append("ViewReal" if f[1] == "view_as_real" else "ViewComplex")
+        elif f in (_sym("fftshift"), _sym("ifftshift")) and len(args) >= 1 and (args[1:] + [kw.get("dim")])[0] == dim:
+            ops.append("FShift" if f[1] == "fftshift" else "IShift")
+        elif f in (("attr", ("attr", _sym("torch"), "fft"), "fftn"), ("attr", ("attr", _sym("torch"), "fft"), "ifftn")) and len(args) == 1 and kw.get("dim") == dim:
+            norm = kw.get("norm")
+            ok = norm is not None and norm[0] == "ife" and norm[1] == _sym("normalized") and norm[2] == X.const("ortho") and norm[3] in (X.NONE, X.const("backward"))
+            if not ok:
+                raise Untranslatable("%s: norm is not 'ortho' if normalized else None: %s" % (name, X.show(norm)[:60] if norm else None), None, path)
+            ops.append("Fwd" if f[2] == "fftn" else "Bwd")
+        else:
+            raise Untranslatable("%s: operation outside subset: %s" % (name, X.show(v)[:100]), None, path)
+        v = args[0]
+    return list(reversed(ops))
 
 
 # ------------------------------------------------------------------------------------------------
